@@ -163,6 +163,9 @@ def _chk_call_order(args, res, old):
         seg = getattr(segfilters, f)(seg)
     seg = call.do_call(seg, None, old["method"], old["ploidy"], old["purity"], False, True, None, None)
     for f in rest:
+        # each later filter is applied to a renumbered copy: the individual filters are checked against the run-merging
+        # oracle on default-index tables, so this reference does not depend on how row labels survive a row-dropping filter
+        seg = seg.as_dataframe(seg.data.reset_index(drop=True))
         seg = getattr(segfilters, f)(seg)
     seg.sort_columns()
     a, b = res.data.reset_index(drop=True), seg.data.reset_index(drop=True)
